@@ -249,3 +249,75 @@ func verifHarness_C17_static() {
 		verifCover("C17 nothing served")
 	}
 }
+
+// Two StaticFiles registrations under one URL prefix, each with its own root
+// and extensions: every request is served from the root of the registration
+// whose extensions it ends in, never from the other one.
+func verifHarness_C17_twoRoots() {
+	rootA, rootB := "/b/ra", "/b/rb"
+	cleanup := func() {}
+	if !verifSymbolic() {
+		base, err := os.MkdirTemp("", "verif-c17b-")
+		if err != nil {
+			panic(err)
+		}
+		rootA, rootB = filepath.Join(base, "ra"), filepath.Join(base, "rb")
+		_ = os.MkdirAll(rootA, 0o755)
+		_ = os.MkdirAll(rootB, 0o755)
+		_ = os.WriteFile(filepath.Join(rootA, "x.js"), []byte("jsA"), 0o644)
+		_ = os.WriteFile(filepath.Join(rootA, "p.css"), []byte(verifSecret), 0o644) // not for the css handler
+		_ = os.WriteFile(filepath.Join(rootB, "y.css"), []byte("cssB"), 0o644)
+		_ = os.WriteFile(filepath.Join(rootB, "q.js"), []byte(verifSecret), 0o644) // not for the js handler
+		cleanup = func() { _ = os.RemoveAll(base) }
+	}
+	defer cleanup()
+	prefix := []string{"/a", "/s.t"}[verifCfg()%2]
+	r := New()
+	if verifCfg()/2%2 == 1 {
+		r.Group("/", func() { r.StaticFiles(prefix, rootA, "js") })
+	} else {
+		r.StaticFiles(prefix, rootA, "js")
+	}
+	r.StaticFiles(prefix, rootB, "css")
+	n := verifLen("plen", 1, verifParam("L"))
+	tail := verifString("tail", n)
+	tail += []string{".js", ".css", ""}[verifChoice("suffix", 3)]
+	p := prefix + "/" + tail
+	rec := verifNewWriter()
+	verifEventsReset()
+	k := verifCatch(func() { r.ServeHTTP(rec, verifRequest("GET", p)) })
+	verifAssert(k == "", "serving a static request does not panic")
+	if !verifSymbolic() {
+		verifAssert(string(rec.body) != verifSecret, "no request is answered from the other registration's root")
+		for _, probe := range []string{prefix + "/p.css", prefix + "/q.js"} {
+			prec := verifNewWriter()
+			r.ServeHTTP(prec, verifRequest("GET", probe))
+			verifAssert(string(prec.body) != verifSecret, "a file with the other registration's extension is not served from this root")
+		}
+		for probe, want := range map[string]string{prefix + "/x.js": "jsA", prefix + "/y.css": "cssB"} {
+			prec := verifNewWriter()
+			r.ServeHTTP(prec, verifRequest("GET", probe))
+			verifAssert(string(prec.body) == want, "each registration serves its own files")
+		}
+		verifCover("C17 two roots")
+		return
+	}
+	norm := verifSpecNorm(p, false)
+	isJS := regexp.MustCompile(`^` + regexp.QuoteMeta(prefix) + `/.+\.js$`).MatchString(norm)
+	isCSS := regexp.MustCompile(`^` + regexp.QuoteMeta(prefix) + `/.+\.css$`).MatchString(norm)
+	ok := true
+	served := 0
+	for i := 0; i < verifEventCount(); i++ {
+		if verifEventKind(i) == "FileServer" {
+			served++
+			if isJS {
+				ok = verifAnd(ok, verifEventStr(i, 0) == rootA)
+			} else {
+				ok = verifAnd(ok, verifEventStr(i, 0) == rootB)
+			}
+		}
+	}
+	verifAssert(verifIff(served > 0, verifOr(isJS, isCSS)), "exactly the paths ending in one of the registered extensions are served")
+	verifAssert(ok, "a request is served from the root of the registration whose extension it ends in")
+	verifCover("C17 two roots")
+}
